@@ -8,7 +8,7 @@ Overview: Provides path resolution utilities for the file placement linter. Conv
     cross-platform compatibility, and handles edge cases like paths outside project root.
     Isolates path manipulation logic from rule checking and pattern matching.
 
-Dependencies: pathlib
+Dependencies: pathlib, contextlib
 
 Exports: PathResolver
 
@@ -17,6 +17,7 @@ Interfaces: get_relative_path(file_path) -> Path, normalize_path_string(path) ->
 Implementation: Uses pathlib for robust path operations, handles ValueError for out-of-tree paths
 """
 
+from contextlib import suppress
 from pathlib import Path
 
 
@@ -40,6 +41,9 @@ class PathResolver:
         Returns:
             Path relative to project root, or original path if outside project
         """
+        # Any spelling of a path inside the project (relative to cwd, through "..") maps to the same path
+        with suppress(ValueError, OSError):
+            return file_path.resolve().relative_to(self.project_root.resolve())
         try:
             if file_path.is_absolute():
                 return file_path.relative_to(self.project_root)
